@@ -13,6 +13,10 @@ APIS = ("::split_at", "::copy_from_slice", "RefCell::borrow", "RefCell::borrow_m
         "String::split_off", "VecDeque::remove", "::rotate_left", "::rotate_right", "::chunks", "::windows", "::step_by")
 
 
+OPS = ("std::ops::Add::add", "std::ops::Sub::sub", "std::ops::AddAssign::add_assign", "std::ops::SubAssign::sub_assign", "std::ops::Mul::mul", "std::ops::Neg::neg")
+PANICKING_ARITH_TYPES = ("chrono::", "DateTime<", "NaiveDate", "TimeDelta", "std::time::", "Instant", "SystemTime", "Duration")
+
+
 def entry_points(P):
     roots = [k for k in ENTRY_EXACT if k in P.fns]
     for k, f in P.fns.items():
@@ -56,6 +60,10 @@ def sites(P, R):
                         k = "index:seq"
                 elif nm.endswith(APIS):
                     k = "api:" + nm.rsplit("::", 1)[1]
+                elif c.dname in OPS and any(t_ in (c.resolved or nm) + " " + nm for t_ in PANICKING_ARITH_TYPES):
+                    # `date + Duration::days(1)`: operator impls of date/time types panic on overflow (chrono: "DateTime + TimeDelta
+                    # overflowed"; std::time likewise) - only their checked_* forms are total
+                    k = "api:time-arith"
             if k is None:
                 continue
             o = ordinal.get(k, 0)
